@@ -306,26 +306,32 @@ class Hang(Exception):
 
 
 class time_limit:
-    """Raises Hang in the main thread if the block runs longer than `seconds` of wall time. Only for code whose
-    normal duration is orders of magnitude below the limit (the limit is a hang detector, not a deadline)."""
+    """Raises Hang in the main thread if the block consumes more than `seconds` of CPU time of this process (an endless loop burns
+    CPU whatever the load of the machine; wall time would also expire for a process that is merely starved), or, as a fall-back for
+    a block that sleeps for ever, 60x that in wall time. Only for code whose normal duration is orders of magnitude below the limit
+    (a hang detector, not a deadline)."""
 
     def __init__(self, seconds: int):
         self.seconds = seconds
 
     def _handler(self, signum, frame):
-        raise Hang(f"no result within {self.seconds}s")
+        raise Hang(f"no result within {self.seconds}s of CPU time (or {60 * self.seconds}s of wall time)")
 
     def __enter__(self):
         import signal
 
+        self._old_prof = signal.signal(signal.SIGPROF, self._handler)
         self._old = signal.signal(signal.SIGALRM, self._handler)
-        signal.alarm(self.seconds)
+        signal.setitimer(signal.ITIMER_PROF, self.seconds)
+        signal.alarm(60 * self.seconds)
         return self
 
     def __exit__(self, *a):
         import signal
 
+        signal.setitimer(signal.ITIMER_PROF, 0)
         signal.alarm(0)
+        signal.signal(signal.SIGPROF, self._old_prof)
         signal.signal(signal.SIGALRM, self._old)
         return False
 
